@@ -18,7 +18,7 @@ def run(ctx):
     quick = ctx.quick()
     ctx.rule = ("a case is a parse of an input or a build of a value through a constrained construct; one-byte domains are exhausted (all 256 "
                 "inputs, all values -2..257); non-trivial = the predicate is false for the value, the label is unknown, or an Error field is reached")
-    nprog = 280 if quick else 5000
+    nprog = 280 if quick else 1500
     nt = 0
     with campaign.Campaign(ctx, "c13", shard_size=1500) as camp:
         for i in range(nprog):
